@@ -64,7 +64,7 @@ CLAIMED["C10"] = dict(
 
 
 CLAIMED["C18"] = dict(
-   text="Decides the structural necessary conditions of transparency, not schedule independence: an interval + difference-bound abstract interpretation of prchunk_fill, started from the window invariants (bytes filled and consumed offset within the mapping, lines recorded within the line table) proves for every read() schedule that the read target, the line-end stamps, the look-behind for CR and the carried-over tail copy stay inside the 16 MiB mapping, that every index into the line table is below its extent, and that the invariants hold again at every successful return (an inductive argument over fills); the read count moves the fill cursor only when positive; failure is reported only with an empty window or because a single line does not fit it (no line is dropped at the end of input); every byte class the reader overwrites in place has a restore in each consumer's copy-through path (the missing CR restore is recorded as known finding D18); each sed-mode loop writes prefix, converted value and rest exactly once in order.",
+   text="Decides the structural necessary conditions of transparency, not schedule independence: an interval + difference-bound abstract interpretation of prchunk_fill, started from the window invariants (bytes filled and consumed offset within the mapping, lines recorded within the line table) proves for every read() schedule that the read target, the line-end stamps, the look-behind for CR and the carried-over tail copy stay inside the 16 MiB mapping, that every index into the line table is below its extent, and that the invariants hold again at every successful return (an inductive argument over fills); the read count moves the fill cursor only when positive; failure is reported only with an empty window or because a single line does not fit it (no line is dropped at the end of input); every byte class the reader overwrites in place has a restore in each consumer's copy-through path (the CR restore, missing until fix 54975b9, included); each sed-mode loop writes prefix, converted value and rest exactly once in order.",
    note="Independence of the output from how the stream is cut into read() results is a statement about schedules and is not decided statically; only the memory-safety and pairing conditions without which lines are lost or corrupted are. Assumes read() returns at most the count requested.",
    technique="static analysis: abstract interpretation (intervals + difference bounds, memchr span model, exact difference facts) over the clang CFG; CFG pairing/ordering rules for the consumers",
    ref="DESIGN.md §4 C18")
